@@ -168,6 +168,15 @@ def normalise(val):
     elif INT_S in val and any(a[0] == 'c' and a[1] == 'int' for a in val):
         val = frozenset(a for a in val if not (a[0] == 'c' and a[1] == 'int'))
     lists = [a for a in val if a[0] == 'list']
+    if lists:
+        # a summary list absorbs the known sequences whose elements it already covers (keeps joins idempotent)
+        cover = lists[0][1] if len(lists) == 1 else None
+        if cover is not None:
+            drop = [a for a in val if a[0] == 'seq' and len(a) == 3 and a[1] in ('list', 'tuple') and all(e <= cover for e in a[2])]
+            if drop:
+                val = frozenset(a for a in val if a not in drop)
+                if len(val) <= 1:
+                    return val
     dicts = [a for a in val if a[0] == 'dict']
     sets = [a for a in val if a[0] == 'set']
     toks = [a for a in val if a[0] == 'toks']
@@ -4765,7 +4774,22 @@ class Interp:
         if cname == 'float':
             return av(FLOAT)
         if cname in ('bytes', 'bytearray'):
+            if x is not None:
+                for a in x:
+                    elems = BOT
+                    if a[0] in ('list', 'set'):
+                        elems = a[1]
+                    elif a[0] == 'seq':
+                        for e in a[2]:
+                            elems = join(elems, e)
+                    if any(b == INT_U or b[0] == 'idx' for b in elems):
+                        self.library_raise(fr, 'ValueError', node)     # bytes([v]) needs 0 <= v < 256
+                        break
             return av(BYTES)
+        if cname == 'float' and x is not None:
+            if any((b[0] == 'str' and b[1] == 'u') or b[0] == 'tok' for b in x):
+                self.library_raise(fr, 'ValueError', node)
+            return av(FLOAT)
         if cname in ('list', 'tuple', 'set', 'frozenset'):
             kind = {'list': 'list', 'tuple': 'tuple', 'set': 'set', 'frozenset': 'set'}[cname]
             if x is None:
@@ -4999,6 +5023,8 @@ class Interp:
         if name == 'ord':
             return av(INT_S)
         if name in ('chr',):
+            if x is not None and any(b == INT_U or b[0] == 'idx' for b in x):
+                self.library_raise(fr, 'ValueError', node)
             return av(STR_S)
         if name in ('repr', 'format', 'hex', 'bin', 'oct'):
             taint = 's'
@@ -5145,7 +5171,20 @@ class Interp:
                 return av(STR_U), None
             if attr == 'hex':
                 return av(STR_S), None
-            if attr in ('extend', 'append', 'clear'):
+            if attr in ('extend', 'append', 'insert'):
+                for p_ in pos:
+                    vals = p_
+                    for b in p_:
+                        if b[0] in ('list', 'set'):
+                            vals = join(vals, b[1])
+                        elif b[0] == 'seq':
+                            for e in b[2]:
+                                vals = join(vals, e)
+                    if any(b == INT_U or b[0] == 'idx' for b in vals):
+                        self.library_raise(fr, 'ValueError', node)     # a byte must be in range(0, 256)
+                        break
+                return av(NONE), None
+            if attr == 'clear':
                 return av(NONE), None
             if attr in ('startswith', 'endswith'):
                 return av(BOOL), None
@@ -5234,6 +5273,8 @@ class Interp:
             return av(TOP), None
         if is_int_atom(a):
             if attr == 'to_bytes':
+                if a in (INT_U,) or k == 'idx' or a == ('int', 'fsize'):
+                    self.library_raise(fr, 'OverflowError', node)      # a value the user sizes need not fit the given length
                 return av(BYTES), None
             if attr == 'bit_length':
                 return av(INT_S), None
@@ -5713,6 +5754,8 @@ class Interp:
         if name in ('dict.fromkeys',):
             return av(('dict', None, pos[1] if len(pos) > 1 else av(NONE), BOT))
         if name in ('bytes.fromhex', 'bytearray.fromhex'):
+            if x is not None and any((b[0] == 'str' and b[1] == 'u') or b[0] == 'tok' for b in x):
+                self.library_raise(fr, 'ValueError', node)
             return av(BYTES)
         if root in ('logging', 'argparse', 'sys', 'abc', 'typing', 'warnings', 'time'):
             if fr.summary is not None:
